@@ -74,9 +74,14 @@ def cases(tier, seed):
                             continue
                         out.append(dict(trainer="gmm_ml", data=dname, start=si, kind=kind, K=K, sw=list(sw), floor=floor, seed=seed))
                     if kind == "np" or sw == (1, 1, 1):
-                        for rel in (4.0, None):
+                        for rel in (4.0, None, "array"):
                             out.append(dict(trainer="gmm_map", data=dname, start=si, kind=kind, K=K, sw=list(sw), rel=rel, floor="default", seed=seed))
                         out.append(dict(trainer="gmm_map", data=dname, start=si, kind="np", K=K, sw=list(sw), rel=4.0, floor="half_after", seed=seed))
+    # many features, most of them constant: variances sit at the floor and their product underflows
+    for kind in ("np", [2, 3]):
+        for sw in SWITCHES:
+            for nfeat in (30, 200):
+                out.append(dict(trainer="gmm_wide", kind=kind, sw=list(sw), D=nfeat, K=K, seed=seed))
     for ui in range(3):
         for pat in range(5):
             for upd in (True, False):
@@ -149,7 +154,10 @@ def _gmm_case(case, c, X, s, o):
             u = GMMMachine(C, weights=np.array(st["w"], float))
             u.means = mu0.copy()
             u.variances = var0.copy()
-            m = GMMMachine(C, trainer="map", ubm=u, map_relevance_factor=case["rel"], map_alpha=0.5, **kw)
+            if case["rel"] == "array":  # fixed adaptation ratio given per component
+                m = GMMMachine(C, trainer="map", ubm=u, map_relevance_factor=None, map_alpha=np.array([0.25, 0.875, 0.5][:C]), **kw)
+            else:
+                m = GMMMachine(C, trainer="map", ubm=u, map_relevance_factor=case["rel"], map_alpha=0.5, **kw)
             if case["floor"] == "half_after":
                 m.variance_thresholds = 0.5 * s * s
         elif tr == "gmm_kmeans":
@@ -253,10 +261,36 @@ def _ivector_case(case, c, s, o):
     return active
 
 
+def _wide_case(case, c, s, o):
+    from bob.learn.em import GMMMachine
+
+    D = case["D"]
+    base = np.array([[0.0, 1.0, 2.5], [1.0, 0.5, -3.0], [10.0, 9.0, 0.5], [11.0, 10.0, 0.0], [0.5, 0.75, 1.0]]) * s + o
+    X = np.hstack([base, np.full((5, D - 3), 2.5 * s + o) if D <= 30 else np.tile(base, (1, (D - 3) // 3 + 1))[:, : D - 3] * 0.125])
+    sw = case["sw"]
+    tags = dict(trainer="gmm_wide", kind="numpy" if case["kind"] == "np" else "dask")
+    active = False
+    for k in range(1, case["K"] + 1):
+        m = GMMMachine(2, update_means=bool(sw[0]), update_variances=bool(sw[1]), update_weights=bool(sw[2]), max_fitting_steps=k, convergence_threshold=None)
+        m.means = np.vstack([X[0], X[2]]) + 0.25 * s
+        m.variances = np.full((2, D), (1.0 if D <= 30 else 2.0**-6) * s * s)
+        m.fit(_mk(X, case["kind"]))
+        c.transitions += 1
+        active |= _check_gmm(c, m, X, tags, f"gmm_wide (D={D}) after {k} iterations", _cond(m, X))
+        c.states += 1
+        if c.viol:
+            break
+    return active
+
+
 def run_case(case):
     sync_dask()
     c = Ctx()
     s, o = affine(case["seed"])
+    if case["trainer"] == "gmm_wide":
+        active = _wide_case(case, c, s, o)
+        c.traces = c.transitions
+        return c.result(nontrivial=True, sig="wide|%s|%s|%d" % (case["kind"], case["sw"], case["D"]))
     if case["trainer"] == "ivector":
         active = _ivector_case(case, c, s, o)
         sig = "iv|%d|%d|%s|%s|%s" % (case["ubm"], case["pat"], case["upd"], case["vfloor"], case["bag"])
